@@ -291,6 +291,10 @@ def special(value):
         return AnyEq()
     if isinstance(value, str) and value == '@NOBOOL':
         return NoBoolEq()
+    if isinstance(value, str) and value == '@T12':
+        return (1, 2)  # a single value that happens to be a tuple
+    if isinstance(value, str) and value == '@T0':
+        return ()
     return value
 
 
